@@ -68,6 +68,14 @@ Definition preserved (tf : Z) (descr : list byte) (year : Z) (dsv : list (list b
 Definition C15_full : Prop := forall tf descr year dsv rt ws,
   schema_dom tf descr year dsv rt = true -> writes_dom ws = true -> preserved tf descr year dsv rt ws.
 
+Lemma create_not_rejected f : check_storable f = true -> create f <> Rejected.
+Proof.
+  intros Hc. unfold create. rewrite Hc. unfold encode_header.
+  destruct (maxNumElements <? t_nelems f)%Z; [discriminate|].
+  destruct ((Z.of_nat (length (t_names f)) <? t_nelems f)%Z || (Z.of_nat (length (t_types f)) <? t_nelems f)%Z);
+    discriminate.
+Qed.
+
 Definition minute : Z := 60000000000%Z.
 Definition day : Z := 86400000000000%Z.
 Definition descr0 : list byte := bytes_of_string "Default"%string.
@@ -92,7 +100,7 @@ Theorem C15_refuted_jan1 : ~ C15_full.
 Proof.
   intros H.
   destruct (H day descr0 2024%Z C15_witness_jan1 RT_FIXED [WFixed 0 (repeat xff 3904)] eq_refl eq_refl) as [Hr|Hr].
-  - vm_compute in Hr. discriminate Hr.
+  - refine (create_not_rejected _ _ Hr). vm_compute. reflexivity.
   - vm_compute in Hr. discriminate Hr.
 Qed.
 Print Assumptions C15_refuted_jan1.
